@@ -84,12 +84,21 @@ def execute(ctx, spec, opts_list):
             nent = {k: (None if v is None else len([x for x in v if x != "H"])) for k, v in files.items()}
             meta = {"instances": len(insts), "entries": nent,
                     "calls_with_events": sum(1 for es in inst_recs if es),
-                    "trios": sum(len(i["trios"]) for i in insts), "reads": sum(len(i["reads"]) for i in insts)}
+                    "trios": sum(len(i["trios"]) for i in insts), "reads": sum(len(i["reads"]) for i in insts),
+                    "multi_block_trio_instances": sum(1 for i in insts if i["trios"] and len({c for _, c in i["components"]}) > 1)}
             out.append((replay, t, meta))
         except G.Unparseable as e:
             out.append((replay, None, ("phase:list-file-unparseable", str(e))))
         except G.RunFailed as e:
-            out.append((replay, None, ("phase:run-failed", str(e))))
+            # the trace holds every instance up to (and including) the one being processed when the run died
+            try:
+                intern = G.Interner()
+                in_vcf = G.parse_vcf(os.path.join(wd, "in.vcf"), False)
+                t = G.case_term(opt, in_vcf, (in_vcf[0], [], {}), e.insts, {"reads": None, "gts": None, "recs": None},
+                                intern, sc.chroms, None)
+            except Exception:
+                t = None
+            out.append((replay, None, ("phase:run-failed", str(e), t, e.stderr)))
     return out
 
 
@@ -105,8 +114,14 @@ def plan(ctx):
     o.update(recombrate=1000000, genmap=False, chromosomes=None, include_homozygous=True)
     o1 = dict(o, chromosomes=[0])
     jobs.append((f9, [o, o1]))
-    nscen = ctx.n(16, 150)
-    per = ctx.n(2, 4)
+    # corpus: a chromosome without anything to phase (third finding: --recombination-list crash)
+    hom = G.make_spec(rng, {"structure": "trio_single", "nchrom": 2})
+    hom.update(all_hom_chrom=0, odd_records=False)
+    oh = G.make_options(rng, hom, (1, 1, 1), 0, 1)
+    oh.update(genmap=False, chromosomes=None)
+    jobs.append((hom, [oh, dict(oh, recs=False)]))
+    nscen = ctx.n(32, 300)
+    per = ctx.n(3, 4)
     k = 0
     for _ in range(nscen):
         spec = G.make_spec(rng)
@@ -127,10 +142,31 @@ def plan(ctx):
 def evaluate(ctx, results):
     """results: [(replay, term, meta)] -> runs Coq, records violations / L2 disagreements."""
     ok = [(r, t, m) for r, t, m in results if t is not None]
-    for r, t, m in results:
-        if t is None:
+    failed = [(r, m) for r, t, m in results if t is None]
+    crash_terms = [(r, m) for r, m in failed if len(m) > 2 and m[2] is not None]
+    crash_verdict = {}
+    if crash_terms:
+        fl, errors = eval_checks("C20crash", HEADER, {"model_crashes": "model_crashes", "empty": "crash_is_empty_instance"},
+                                 [m[2] for _, m in crash_terms], shard=4, timeout=900)
+        if errors:
+            raise RuntimeError("coq evaluation failed: " + errors[0][1])
+        for j, (r, m) in enumerate(crash_terms):
+            crash_verdict[id(m)] = (j not in fl["model_crashes"], j not in fl["empty"])
+    for r, m in failed:
+        ctx.count(("fail", repr(r)), nontrivial=False)
+        ctx.tally("runs_that_crashed")
+        model_crashes, empty = crash_verdict.get(id(m), (False, False))
+        if (m[0] == "phase:run-failed" and model_crashes and empty and "find_recombination" in m[3]
+                and "AssertionError" in m[3]):
+            ctx.violation("phase:recombination-list-crash-no-accessible-variants",
+                          "whatshap phase --ped --recombination-list dies with AssertionError in find_recombination when a "
+                          "(chromosome, family) has no accessible variant (recombination cost vector [0] for an empty position list); "
+                          f"no list is complete. spec={r['spec']} options={r['opt']}", r)
+        else:
             ctx.violation(m[0], m[1][:1500], r)
-            ctx.count(("fail", repr(r)), nontrivial=False)
+            if m[0] == "phase:run-failed" and not model_crashes:
+                ctx.disagreements_checked += 1
+                ctx.l2_disagreement("AuxReports.run = None iff whatshap phase crashes (L2)", [{"replay": r}])
     if not ok:
         return
     failing, errors = eval_checks("C20", HEADER, CHECKS, [t for _, t, _ in ok], shard=4, timeout=900)
@@ -172,6 +208,7 @@ def evaluate(ctx, results):
             if v:
                 ctx.tally(f"entries.{kname}", v)
         ctx.tally("instances_with_recombination_events", meta["calls_with_events"])
+        ctx.tally("trio_instances_with_several_phase_sets", meta["multi_block_trio_instances"])
         desc = f"spec={rp['spec']} options={opt} (instances: {meta['instances']}, entries in files: {meta['entries']})"
         # ---------------- L1
         if not holds("wf", i):
@@ -241,12 +278,34 @@ def run_jobs(ctx, jobs):
     return [x for r in res for x in r]
 
 
+def search_jobs(ctx, n):
+    """wider search after an L2-only disagreement: large runs with everything switched on"""
+    rng = ctx.rng
+    jobs = []
+    for _ in range(n):
+        spec = G.make_spec(rng, {"nchrom": 3})
+        spec.update(recomb_prob=0.35, gt_error=0.25, nvars=11)
+        opts = []
+        for ped in (1, 1, 0):
+            o = G.make_options(rng, spec, (1, 1, 1), 1, ped)
+            o.update(genmap=False, chromosomes=None, recombrate=rng.choice([300000, 1000000]))
+            opts.append(o)
+        jobs.append((spec, opts))
+    return jobs
+
+
 def run(ctx):
     import logging
     logging.getLogger("whatshap").setLevel(logging.WARNING)
     jobs = plan(ctx)
     results = run_jobs(ctx, jobs)
     evaluate(ctx, results)
+    if ctx.l2 and not any(v["found_input"] for v in ctx.violations):
+        # the model no longer describes the code: look for an input on which the property itself fails
+        rule = dict(ctx.extra)
+        evaluate(ctx, run_jobs(ctx, search_jobs(ctx, ctx.n(16, 60))))
+        ctx.extra.update(rule)
+        ctx.extra["search_after_l2_disagreement"] = True
 
 
 def replay(ctx, data):
